@@ -89,6 +89,7 @@ type base struct {
 	kind    string          // mem | os | ossym
 	links   map[string]bool // planted symbolic links (kind os only): never objects
 	guard   string          // the directory that holds this root's sibling sentinels
+	dirLink bool            // the root contains "dl", a link to the sibling directory outside
 	bucket  storage.ReadWriteBucket
 	dir     string // os root
 	model   map[string]string
@@ -381,7 +382,9 @@ type sim struct {
 // siblings whose names extend a directory's name with a character that sorts below '/'
 // ("a-b", "a.d", "a.txt" next to "a/") separate path-wise from string-wise prefix handling
 var universeDirs = []string{"a", "a/x", "b", "b/y", "c", "a-b", "a.d", "b/y.z", ".cfg", ".a", "a/.x"}
-var universeNames = []string{"one.proto", "two.proto", "three.txt", "four", "five.proto", "a.txt", "one.proto.bak", "x.y", "sp ace.txt", "two  spaces.proto", "ünï.proto", " lead", "trail ", ".hidden", ".one.proto", "back\\slash.txt", "a\\b.proto", "...", "..a", "a..b", "-dash", "~tilde", "%2e%2e", "x" + longName, ".tmpl", ".tmp.proto"}
+var universeNames = []string{"one.proto", "two.proto", "three.txt", "four", "five.proto", "a.txt", "one.proto.bak", "x.y", "sp ace.txt", "two  spaces.proto", "ünï.proto", " lead", "trail ", ".hidden", ".one.proto", "back\\slash.txt", "a\\b.proto", "...", "..a", "a..b", "-dash", "~tilde", "%2e%2e", "x" + longName, ".tmpl", ".tmp.proto", "One.proto", "ONE.PROTO",
+	// one single name on unix - whoever turns the backslashes into separators AFTER the path was checked climbs out
+	"x\\..\\..\\sentinel-sibling.txt", "y\\..\\..\\..\\sentinel-outer.txt"}
 
 // longName is as long as a file name may be minus one.
 var longName = strings.Repeat("n", 200)
@@ -409,14 +412,16 @@ func (m *sim) newBase(i int) *base {
 	case "mem":
 		b.bucket = storagemem.NewReadWriteBucket()
 	default:
-		b.dir = filepath.Join(m.root, "outer", b.name, "root")
+		// the root directory's own name may contain what a shell or a pattern matcher would interpret
+		rootName := tape.Pick(m.tp, "rootname", []string{"root", "root", "root[v2]", "ro ot", "röt", "root*", "r?ot", "{r,oot}"})
+		b.dir = filepath.Join(m.root, "outer", b.name, rootName)
 		b.guard = filepath.Dir(b.dir)
 		inCwd := m.tp.Draw("rootincwd", 4) == 3
 		if inCwd {
 			// a root INSIDE the working directory, below a chain of directories that hold nothing
 			// else: removing "empty parent directories" must stop at the root
 			b.guard = filepath.Join(m.root, "outer", "B", "in"+b.name)
-			b.dir = filepath.Join(b.guard, "e1", "e2", "root")
+			b.dir = filepath.Join(b.guard, "e1", "e2", rootName)
 		}
 		if err := os.MkdirAll(b.dir, 0o755); err != nil {
 			panic(err)
@@ -432,14 +437,14 @@ func (m *sim) newBase(i int) *base {
 		rootArg := b.dir
 		switch m.tp.Draw("rootspell", 4) {
 		case 1:
-			rootArg = "../" + b.name + "/root"
+			rootArg = "../" + b.name + "/" + rootName
 		case 2:
-			rootArg = "../B/../" + b.name + "/./root"
+			rootArg = "../B/../" + b.name + "/./" + rootName
 		case 3:
-			rootArg = "./../" + b.name + "//root/"
+			rootArg = "./../" + b.name + "//" + rootName + "/"
 		}
 		if inCwd {
-			rootArg = tape.Pick(m.tp, "rootspellincwd", []string{b.dir, "in" + b.name + "/e1/e2/root", "./in" + b.name + "/e1//e2/root/", "../B/in" + b.name + "/e1/e2/root", "../B/./in" + b.name + "/e1/../e1/e2/root"})
+			rootArg = tape.Pick(m.tp, "rootspellincwd", []string{b.dir, "in" + b.name + "/e1/e2/" + rootName, "./in" + b.name + "/e1//e2/" + rootName + "/", "../B/in" + b.name + "/e1/e2/" + rootName, "../B/./in" + b.name + "/e1/../e1/e2/" + rootName})
 			m.s.Probe("root-inside-working-directory")
 		}
 		if rootArg != b.dir {
@@ -464,6 +469,15 @@ func (m *sim) newBase(i int) *base {
 			b.links[lp] = true
 			m.markDirs(b, lp)
 			m.s.Probe("planted-link")
+		}
+		if b.kind == "os" && m.tp.Draw("plantdirlink", 3) == 2 {
+			// a link to a DIRECTORY outside the root: this bucket does not follow links, so nothing
+			// can be created "in" it
+			if err := os.Symlink(filepath.Join(b.guard, "sib"), filepath.Join(b.dir, "dl")); err != nil {
+				panic(err)
+			}
+			b.links["dl"] = true
+			b.dirLink = true
 		}
 	}
 	return b
@@ -794,8 +808,11 @@ func (m *sim) stepGetOpen(v view) {
 					m.violate("nothing-outside-root-read", site+"|filter", "Get(%q) on %s returned an object that the filter excludes", p, v.label())
 				}
 			}
-			if string(data) == "outer" {
-				m.violate("nothing-outside-root-read", site, "Get(%q) on %s returned the content of a file outside the root", p, v.label())
+			for k, c := range m.sentinel {
+				if c != "" && c != "x" && string(data) == c {
+					m.violate("nothing-outside-root-read", site, "Get(%q) on %s returned the content of %s, a file outside the root", p, v.label(), k)
+					break
+				}
 			}
 			m.violate("get-matches-model", site, "Get(%q) on %s returned an object the model does not have", p, v.label())
 		} else if !storage.IsNotExist(err) {
@@ -1961,6 +1978,34 @@ func (m *sim) stepCLIPath() {
 	m.s.Probe("cli-path-values")
 }
 
+// stepPutThroughDirLink: a put whose parent directory is a link to a directory outside the root of a
+// bucket that does not follow links must fail - not create the file out there.
+func (m *sim) stepPutThroughDirLink() {
+	var cands []*base
+	for _, b := range m.bases {
+		// (a delete-all may have removed the link since)
+		if fi, err := os.Lstat(filepath.Join(b.dir, "dl")); b.dirLink && !m.busy(b) && err == nil && fi.Mode()&os.ModeSymlink != 0 {
+			cands = append(cands, b)
+		}
+	}
+	if len(cands) == 0 {
+		return
+	}
+	b := cands[m.tp.Draw("dirlink-base", len(cands))]
+	var opts []storage.PutOption
+	if m.tp.Draw("dirlink-atomic", 2) == 1 {
+		opts = append(opts, storage.PutWithAtomic())
+	}
+	woc, err := b.bucket.Put(m.ctx, "dl/created.txt", opts...)
+	m.s.Event("put through dir link on %s -> %s", b.name, classify(err))
+	if err == nil {
+		_, _ = woc.Write([]byte("created through a link"))
+		_ = woc.Close()
+		m.violate("escape-rejected", "put-through-dir-link", "Put(\"dl/created.txt\") on %s, where dl is a link to a directory outside the root, returned no error", b.name)
+	}
+	m.s.Probe("put-through-dir-link")
+}
+
 // stepConfigDirs: directories supplied by configuration files (workspace directories, module
 // paths, exclude paths) are confined to the directory of the configuration file.
 func (m *sim) stepConfigDirs() {
@@ -2348,7 +2393,7 @@ func Run(tp *tape.Tape, env *engine.Env) *engine.Outcome {
 				m.stepPluginResponse(v)
 			}
 		case op == 19 && tp.Draw("special19", 4) == 3:
-			switch tp.Draw("which19", 10) {
+			switch tp.Draw("which19", 11) {
 			case 0:
 				name = "foreign-archive"
 				m.stepForeignArchive()
@@ -2370,6 +2415,9 @@ func Run(tp *tape.Tape, env *engine.Env) *engine.Outcome {
 			case 8:
 				name = "cli-path"
 				m.stepCLIPath()
+			case 9:
+				name = "put-through-dir-link"
+				m.stepPutThroughDirLink()
 			default:
 				name = "concurrent"
 				m.stepConcurrent()
